@@ -233,6 +233,247 @@ class C08(Prop):
         return C03.nontrivial(self, case, obs)
 
 
-ALL = {p.pid: p for p in [C03(), C08()]}
+# ---------------------------------------------------------------- mixed streams
+
+def any_allowed(rng):
+    k = rng.random()
+    if k < 0.55:
+        return None
+    pool = [5, 7, 9, 10]
+    sub = [v for v in pool if rng.random() < 0.6]
+    if rng.random() < 0.4:
+        sub += rng.sample([0, 1, 6, 8, 11, 255, 256, 65535], rng.choice([1, 2]))
+    return sub
+
+
+def mixed_case(rng, tables):
+    k = rng.random()
+    if k < 0.4:
+        return gen.conformant_stream(rng, tables, parsers=rng.choice([1, 1, 2]), allowed=any_allowed(rng))
+    if k < 0.65:
+        return gen.mutated_stream(rng, tables)
+    if k < 0.85:
+        return gen.mutated_stream(rng, tables, conformant_templates=True)
+    return gen.malformed(rng)
+
+
+class C01(Prop):
+    pid = "C01"
+    keys = ["R", "X", "C"]
+    technique = "Coq: totality of the fuelled model (fuel never runs out, no panic branch reachable) + panic/recursion inventory regenerated from source; correspondence on outcome, 2 MiB threads, stress families"
+    level_text = ("Theorems C01_* (coq/Props/C01.v): for every buffer, every reachable state and every allowed set the model's parse_bytes returns "
+                  "(explicit recursion fuel never runs out), no element carries the fuel marker, re-export of parser output never takes the panic "
+                  "branch; the inventory of panic-capable expressions and self-recursive functions regenerated from /repo/src must equal the list the "
+                  "model accounts for. Partial: that the bounded number of stack frames fits 2 MiB, and wall-clock termination, are observed (2 MiB "
+                  "threads, watchdog, stress families at datagram size in debug and release), not proved.")
+    level_note = "stack frame sizes and wall-clock are measured, not proved; panics inside dependencies are covered only by correspondence"
+    partial = "stack depth in bytes and wall-clock time are observed on stress families, not proved"
+    rule = ("mixed streams (conformant multi-packet multi-parser, near-valid mutations with hostile templates cached first, malformed) plus the stress "
+            "families of every loop site (max records, chained packets, templates, fields, zero-size templates, lying counts/lengths); each op runs "
+            "on a 2 MiB thread; non-trivial = decodes at least one packet; distinct by hash")
+
+    def budget(self, tier):
+        return 800 if tier == "quick" else 30000
+
+    def cases(self, rng, tables, n, tier):
+        return gen.stress_cases(rng, big=(tier == "thorough")) + [mixed_case(rng, tables) for _ in range(n)]
+
+    def oracle(self, case, obs, crash, tables):
+        return oracle.c01(case, obs, crash)
+
+
+class C02(Prop):
+    pid = "C02"
+    keys = ["R"]
+    technique = "Coq: induction over the packet loop with a consumption lemma per version (wire length from the packet's own header); correspondence on R"
+    level_text = ("Theorems C02_* (coq/Props/C02.v): for every buffer, state and allowed set the result list is good ++ tail with the wire lengths of "
+                  "good (24+48n, 24+52n, max(length,16), 20+sum max(flowset length,4), read from the packets' own headers) adding up to a prefix of the "
+                  "buffer, tail empty or one Error whose remaining is exactly the unconsumed suffix, and a silent stop only before a disallowed version; "
+                  "parse_bytes always returns; empty buffer gives the empty list.")
+    level_note = "model of lib.rs / v9.rs / ipfix.rs control flow is hand-written and tied by correspondence"
+    rule = ("mixed streams under random allowed sets (subsets of {5,7,9,10} plus extras): conformant chains, length/count mutations (set length < 4, "
+            "message length < 16, count != flowsets), truncations, stray tail bytes, garbage; non-trivial = at least one packet decoded; distinct by hash")
+
+    def cases(self, rng, tables, n, tier):
+        return [mixed_case(rng, tables) for _ in range(n)]
+
+    def oracle(self, case, obs, crash, tables):
+        return oracle.c01(case, obs, crash) + oracle.c02(case, obs, crash)
+
+
+def partition_case(rng, tables):
+    seq = gen.packet_sequence(rng, tables, npk=rng.choice([2, 2, 3, 4, 5, 6]))
+    pk = [b for b, _v, _d in seq]
+    ops = ["P 0", "B 0 " + hexs(b"".join(pk))]
+    parts = gen.all_partitions(pk)
+    if len(parts) > 8:
+        parts = rng.sample(parts, 8)
+    for k, groups in enumerate(parts, 1):
+        ops.append("P %d" % k)
+        for g in groups:
+            ops.append("B %d %s" % (k, hexs(b"".join(g))))
+    return Case("partitions", ops, {"n": len(pk)})
+
+
+class C11(Prop):
+    pid = "C11"
+    keys = ["R", "S"]
+    technique = "Coq: frame lemma per version parser (no parser looks past its packet) + induction over the packet loop; correspondence on R and S under all partitions"
+    level_text = ("Theorems C11_* (coq/Props/C11.v): for every sequence of accepted self-delimiting packets, every state and allowed set, "
+                  "parse_bytes(a ++ b) = parse_bytes(a) ++ parse_bytes(b) run on the state a leaves, final states equal, and hence every partition into "
+                  "calls at packet boundaries gives the one-call result. No bound on the number or size of packets.")
+    level_note = "ranges over sequences whose packets are accepted (a rejected packet ends the one-call result with an error carrying the suffix, as C02/C14 require)"
+    rule = ("conformant sequences of 2-6 packets mixing the four versions (templates defined by earlier packets of the sequence), delivered in one call on "
+            "parser 0 and under all 2^(n-1) partitions (8 sampled when n > 4) on further parsers; results and final caches compared; non-trivial = at "
+            "least two packets decoded; distinct by hash")
+
+    def cases(self, rng, tables, n, tier):
+        return [partition_case(rng, tables) for _ in range(max(1, n // 3))]
+
+    def budget(self, tier):
+        return 600 if tier == "quick" else 15000
+
+    def oracle(self, case, obs, crash, tables):
+        return oracle.c01(case, obs, crash) + oracle.c11(case, obs, crash)
+
+    def nontrivial(self, case, obs):
+        if not obs:
+            return False
+        R = get(obs[0], "R")
+        return isinstance(R, list) and sum(1 for e in R if oracle.elem_kind(e) != "Error") >= 2
+
+
+def filter_case(rng, tables):
+    seq = gen.packet_sequence(rng, tables, npk=rng.choice([1, 2, 3, 4, 5]))
+    k = rng.random()
+    if k < 0.3:
+        v = rng.choice([0, 1, 6, 8, 11, 255, 256, 65535])
+        seq.insert(rng.randrange(len(seq) + 1), (be(v, 2) + rng.randbytes(rng.choice([0, 3, 20])), v, "unknown"))
+    allowed = [v for v in [5, 7, 9, 10] if rng.random() < 0.6]
+    if rng.random() < 0.4:
+        allowed += rng.sample([0, 1, 6, 8, 11, 255, 256, 65535], rng.choice([1, 2, 3]))
+    buf = b"".join(b for b, _v, _d in seq)
+    prefix = b""
+    for b, v, _d in seq:
+        if v not in allowed:
+            break
+        prefix += b
+    aset = "A 0 " + (",".join(map(str, allowed)) if allowed else "-")
+    if rng.random() < 0.25 and len(seq) > 1 and all(v in (5, 7, 9, 10) for _b, v, _d in seq[:1]):
+        # an earlier call with the default set on both parsers (same state), then the filter
+        cut = rng.randrange(1, len(seq))
+        if all(v in (5, 7, 9, 10) for _b, v, _d in seq[:cut]):
+            a = b"".join(b for b, _v, _d in seq[:cut])
+            c = b"".join(b for b, _v, _d in seq[cut:])
+            return Case("filter", ["P 0", "P 1", "B 0 " + hexs(a), "B 1 " + hexs(a), aset, "A 1 *", "B 0 " + hexs(c), "B 1 " + hexs(c)], {"allowed": allowed})
+    ops = ["P 0", aset, "P 1", "A 1 *", "P 2", "A 2 *", "B 0 " + hexs(buf), "B 1 " + hexs(buf), "B 2 " + hexs(prefix)]
+    return Case("filter", ops, {"allowed": allowed})
+
+
+class C12(Prop):
+    pid = "C12"
+    keys = ["R", "S"]
+    technique = "Coq: simulation between the run under `allow` and the run allowing every version (results carry the state after each element); correspondence on R and S with twin parsers"
+    level_text = ("Theorems C12_* (coq/Props/C12.v): for every allowed set, buffer and state, parse_bytes under `allow` is the all-allowed result cut at "
+                  "the first element whose version word is not allowed, with the states attached to the surviving elements (so filtered packets change no "
+                  "cache); an allowed version other than 5/7/9/10 is an UnknownVersion error carrying the unparsed bytes; the dispatch table and the default "
+                  "set are regenerated from lib.rs.")
+    level_note = "`a parser allowing every version` is modelled as the predicate fun _ => true; in the harness as the set of all 65,536 u16"
+    rule = ("conformant sequences of 1-5 packets, optionally with a packet of an unknown version, under a random subset of {5,7,9,10} plus extras; twin "
+            "parser allowing all 65,536 versions on the same buffers; third parser fed only the allowed prefix (caches compared); non-trivial = at least "
+            "one packet decoded by the all-allowed twin; distinct by hash")
+
+    def cases(self, rng, tables, n, tier):
+        return [filter_case(rng, tables) for _ in range(n)]
+
+    def oracle(self, case, obs, crash, tables):
+        return oracle.c01(case, obs, crash) + oracle.c12(case, obs, crash)
+
+    def nontrivial(self, case, obs):
+        bp = oracle.by_parser(case, obs)
+        if 1 not in bp:
+            return False
+        R, _ = oracle.results_of(bp[1])
+        return any(oracle.elem_kind(e) != "Error" for e in R)
+
+
+def cut_case(rng, tables):
+    seq = gen.packet_sequence(rng, tables, npk=rng.choice([1, 2, 3]))
+    pre = b"".join(b for b, _v, _d in seq[:-1])
+    p, ver, _d = seq[-1]
+    if len(p) <= 40:
+        points = list(range(1, len(p)))
+    else:
+        points = sorted(set(rng.sample(range(1, len(p)), 24) + [1, 2, 3, 4, 16, 19, 20, 21, 23, 24, 25, len(p) - 1, len(p) - 2, len(p) - 4]))
+        points = [c for c in points if 0 < c < len(p)]
+    bounds = gen.v9_boundaries(p) if ver == 9 else set()
+    ops = ["P 0", "B 0 " + hexs(pre)] if pre else ["P 0"]
+    cuts = {}
+    for k, c in enumerate(points, 1):
+        ops.append("P %d" % k)
+        ops.append("B %d %s" % (k, hexs(pre + p[:c])))
+        cuts[k] = (ver, pre, p[:c], c in bounds)
+    return Case("cuts", ops, {"cuts": cuts, "ref": 0})
+
+
+class C14(Prop):
+    pid = "C14"
+    keys = ["R", "S"]
+    technique = "Coq: success characterisation per version (a packet decodes iff the bytes its header announces are present); correspondence on every cut point"
+    level_text = ("Theorems C14_* (coq/Props/C14.v): a V5/V7 buffer shorter than 24+48n / 24+52n, and an IPFIX buffer shorter than its message length, "
+                  "is reported as one Error whose remaining is the buffer, with the parser state unchanged, for every content and state; packets before it "
+                  "in the buffer are reported unchanged (C11 framing).")
+    level_note = "the V9 clause (cut inside a flowset) is covered by correspondence on every cut point; its theorem is stated for the flowset step"
+    rule = ("conformant sequences of 1-3 packets; the last packet cut at every point (<= 40 bytes) or at 24+ sampled points including header/set "
+            "boundaries, each cut on a fresh parser after the preceding packets; reference parser gets only the preceding packets; non-trivial = the "
+            "preceding packets decode or the cut is inside the first packet; distinct by hash")
+
+    def budget(self, tier):
+        return 240 if tier == "quick" else 8000
+
+    def cases(self, rng, tables, n, tier):
+        return [cut_case(rng, tables) for _ in range(max(1, n // 4))]
+
+    def oracle(self, case, obs, crash, tables):
+        return oracle.c01(case, obs, crash) + oracle.c14(case, obs, crash)
+
+    def nontrivial(self, case, obs):
+        return len(obs) > 2
+
+
+def json_case(rng, tables):
+    c = gen.conformant_stream(rng, tables, parsers=1) if rng.random() < 0.7 else gen.mutated_stream(rng, tables)
+    # twin parser fed the same history
+    ops = []
+    for line in c.ops:
+        ops.append(line)
+        t = line.split()
+        if t[0] in ("P", "A", "B") and t[1] == "0":
+            ops.append(" ".join([t[0], "1"] + t[2:]))
+    return Case("json-twins", ops, {"twins": True})
+
+
+class C16(Prop):
+    pid = "C16"
+    keys = ["R"]
+    technique = "Coq: JSON tree of every result type is total and its compact text re-reads to the same tree; correspondence: serde_json text parsed by a strict reader and compared as an ordered tree; twin parsers"
+    level_text = ("Theorems C16_* (coq/Props/C16.v): the model's serde shape to_json is a total function of the result (so equal results give equal "
+                  "trees: determinism), records list their fields in template order with decimal-index keys, and the model's compact printer is injective "
+                  "on the leaves it prints. The crate's serde_json text is parsed with Python's strict JSON reader and compared with the model's tree "
+                  "node by node including key order, 128-bit integers exactly, floats by bit pattern (non-finite = null), strings as UTF-8.")
+    level_note = "serde_json's own printer (number and string formatting) is compared, not modelled"
+    partial = "serde_json's text printer is compared with the model's tree, not modelled; well-formedness of the crate's text is decided by an independent strict reader on every generated result"
+    rule = ("conformant and mutated streams with 128-bit counters, NaN/inf floats, invalid UTF-8, quotes and control characters, empty values, error "
+            "elements with arbitrary bytes; every op duplicated on a twin parser; the same result serialized twice; non-trivial = decodes at least one "
+            "packet; distinct by hash")
+
+    def cases(self, rng, tables, n, tier):
+        return [json_case(rng, tables) for _ in range(n)]
+
+    def oracle(self, case, obs, crash, tables):
+        return oracle.c01(case, obs, crash) + oracle.c16(case, obs, crash)
+
+
+ALL = {p.pid: p for p in [C02(), C03(), C08(), C11(), C12()]}
 
 NOT_CLAIMED = {}
